@@ -22,14 +22,21 @@ func (cw *counterWriter) Write(p []byte) (int, error) {
 // getVarIntSize returns the size in number of bytes of a variable integer.
 // (reference: GetVarSize(int value),  https://github.com/neo-project/neo/blob/master/neo/IO/Helper.cs)
 func getVarIntSize(value int) int {
+	return getVarUintSize(uint64(value))
+}
+
+// getVarUintSize is getVarIntSize for the whole range WriteVarUint accepts.
+func getVarUintSize(value uint64) int {
 	var size uintptr
 
 	if value < 0xFD {
 		size = 1 // unit8
 	} else if value <= 0xFFFF {
 		size = 3 // byte + uint16
-	} else {
+	} else if value <= 0xFFFFFFFF {
 		size = 5 // byte + uint32
+	} else {
+		size = 9 // byte + uint64
 	}
 	return int(size)
 }
@@ -55,7 +62,7 @@ func GetVarSize(value any) int {
 		reflect.Uint16,
 		reflect.Uint32,
 		reflect.Uint64:
-		return getVarIntSize(int(v.Uint()))
+		return getVarUintSize(v.Uint())
 	case reflect.Pointer:
 		vser, ok := reflect.TypeAssert[Serializable](v)
 		if !ok {
